@@ -124,6 +124,7 @@ structure Inv1 (c : Cfg) (s : State) : Prop where
   ended_cnt : (s.ag = Ag.done ∨ ∃ e, s.ag = Ag.failed e) → s.count = 0
   dropped_only : ∀ k, s.st k = SSt.dropped → destructing s.ag
   bad : s.badDestroy = []
+  no_abort : s.ag ≠ Ag.aborted
 
 
 theorem active_fresh : active SSt.fresh = true := rfl
@@ -143,7 +144,7 @@ macro "inv1_close" : tactic => `(tactic| first
   | (constructor <;> grind [curAllowed, destructing, isCharging, upd_apply, active, snoc_ne_nil, count_snoc]))
 
 theorem inv1_next (c : Cfg) (s : State) (a : Nat) (h : Inv1 c s) : Inv1 c (stepNext c s a) := by
-  obtain ⟨h1,h2,h3,h4,h5,h6,h7,h8,h9,h10,h11,h12,h13,h14,h15,h16,h17,h18,h19,h20,h21⟩ := h
+  obtain ⟨h1,h2,h3,h4,h5,h6,h7,h8,h9,h10,h11,h12,h13,h14,h15,h16,h17,h18,h19,h20,h21,h22⟩ := h
   unfold stepNext
   split
   · have hu := h4 (h5 ‹_›)
@@ -152,8 +153,8 @@ theorem inv1_next (c : Cfg) (s : State) (a : Nat) (h : Inv1 c s) : Inv1 c (stepN
   · inv1_close
   · inv1_close
 
-theorem inv1_destroy (c : Cfg) (s : State) (h : Inv1 c s) : Inv1 c (stepDestroy s) := by
-  obtain ⟨h1,h2,h3,h4,h5,h6,h7,h8,h9,h10,h11,h12,h13,h14,h15,h16,h17,h18,h19,h20,h21⟩ := h
+theorem inv1_destroy (c : Cfg) (s : State) (b : Bool) (h : Inv1 c s) : Inv1 c (stepDestroy s b) := by
+  obtain ⟨h1,h2,h3,h4,h5,h6,h7,h8,h9,h10,h11,h12,h13,h14,h15,h16,h17,h18,h19,h20,h21,h22⟩ := h
   unfold stepDestroy
   split <;> inv1_close
 
@@ -166,15 +167,33 @@ theorem inflightList_nil (s : State) (n : Nat) (h : ∀ k, k < n → s.st k ≠ 
     rw [ih (fun k hk => h k (by omega))]
     simp [h n (by omega)]
 
+/-- fetching the argument again touches the ghost log `late` only -/
+theorem lateRead_eq (c : Cfg) (s : State) (k : Nat) : ∃ l, lateRead c s k = { s with late := l } := by
+  unfold lateRead
+  split
+  · exact ⟨_, rfl⟩
+  · exact ⟨s.late, rfl⟩
+
+theorem inv1_late (c : Cfg) (s : State) (l : Nat → List (Nat × Option Nat)) (h : Inv1 c s) :
+    Inv1 c { s with late := l } := by
+  obtain ⟨h1,h2,h3,h4,h5,h6,h7,h8,h9,h10,h11,h12,h13,h14,h15,h16,h17,h18,h19,h20,h21,h22⟩ := h
+  exact ⟨h1,h2,h3,h4,h5,h6,h7,h8,h9,h10,h11,h12,h13,h14,h15,h16,h17,h18,h19,h20,h21,h22⟩
+
+theorem inv1_srcRun_inflight (c : Cfg) (s : State) (k : Nat) (h : Inv1 c s) (hk : s.st k = SSt.inflight) :
+    Inv1 c (srcRun c s k) := by
+  obtain ⟨h1,h2,h3,h4,h5,h6,h7,h8,h9,h10,h11,h12,h13,h14,h15,h16,h17,h18,h19,h20,h21,h22⟩ := h
+  have hq := nWith_upd active s.st k SSt.queued c.n
+  have hi := nWith_upd active s.st k SSt.inflight c.n
+  unfold srcRun push
+  split <;> inv1_close
+
 theorem inv1_resolve (c : Cfg) (s : State) (k : Nat) (h : Inv1 c s) : Inv1 c (stepResolve c s k) := by
-  obtain ⟨h1,h2,h3,h4,h5,h6,h7,h8,h9,h10,h11,h12,h13,h14,h15,h16,h17,h18,h19,h20,h21⟩ := h
   unfold stepResolve
   split
-  · have hq := nWith_upd active s.st k SSt.queued c.n
-    have hi := nWith_upd active s.st k SSt.inflight c.n
-    unfold srcRun push
-    split <;> inv1_close
-  · inv1_close
+  · obtain ⟨l, hl⟩ := lateRead_eq c s k
+    rw [hl]
+    exact inv1_srcRun_inflight c _ k (inv1_late c s l h) ‹_›
+  · exact h
 
 
 theorem count_cons' (l : List Nat) (k j : Nat) : (k :: l).count j = l.count j + (if k = j then 1 else 0) := by
@@ -182,7 +201,7 @@ theorem count_cons' (l : List Nat) (k j : Nat) : (k :: l).count j = l.count j + 
 
 theorem inv1_popHandle (c : Cfg) (s : State) (h : Inv1 c s) (hag : s.ag = Ag.loop ∨ s.ag = Ag.woken) :
     Inv1 c (popHandle s) := by
-  obtain ⟨h1,h2,h3,h4,h5,h6,h7,h8,h9,h10,h11,h12,h13,h14,h15,h16,h17,h18,h19,h20,h21⟩ := h
+  obtain ⟨h1,h2,h3,h4,h5,h6,h7,h8,h9,h10,h11,h12,h13,h14,h15,h16,h17,h18,h19,h20,h21,h22⟩ := h
   unfold popHandle
   split
   · inv1_close
@@ -195,20 +214,44 @@ theorem inv1_popHandle (c : Cfg) (s : State) (h : Inv1 c s) (hag : s.ag = Ag.loo
     split <;> inv1_close
 
 
-theorem inv1_charge (c : Cfg) (s : State) (k a : Nat) (ag' : Ag) (h : Inv1 c s) (hk : k < c.n)
-    (hst : (∃ b, s.ag = Ag.charging k b ∧ ag' = Ag.charging (k + 1) b) ∨ (∃ b, s.ag = Ag.recharge k b ∧ ag' = Ag.loop)) :
-    Inv1 c { charge c s k a with ag := ag' } := by
-  obtain ⟨h1,h2,h3,h4,h5,h6,h7,h8,h9,h10,h11,h12,h13,h14,h15,h16,h17,h18,h19,h20,h21⟩ := h
+/-- the argument bookkeeping (`got`, `cell`, `aggArg`) is not part of the control structure -/
+theorem inv1_args (c : Cfg) (s : State) (g : Nat → List Nat) (ce : Nat → Option Nat) (x : Option Nat) (h : Inv1 c s) :
+    Inv1 c { s with got := g, cell := ce, aggArg := x } := by
+  obtain ⟨h1,h2,h3,h4,h5,h6,h7,h8,h9,h10,h11,h12,h13,h14,h15,h16,h17,h18,h19,h20,h21,h22⟩ := h
+  exact ⟨h1,h2,h3,h4,h5,h6,h7,h8,h9,h10,h11,h12,h13,h14,h15,h16,h17,h18,h19,h20,h21,h22⟩
+
+theorem inv1_srcRun_charging (c : Cfg) (s : State) (k b : Nat) (h : Inv1 c s) (hk : k < c.n)
+    (hb : s.ag = Ag.charging k b) : Inv1 c { srcRun c s k with ag := Ag.charging (k + 1) b } := by
+  obtain ⟨h1,h2,h3,h4,h5,h6,h7,h8,h9,h10,h11,h12,h13,h14,h15,h16,h17,h18,h19,h20,h21,h22⟩ := h
   have hq := nWith_upd active s.st k SSt.queued c.n
   have hi := nWith_upd active s.st k SSt.inflight c.n
-  unfold charge srcRun push
+  have := h12 k b hb k (Nat.le_refl k)
+  unfold srcRun push
+  dsimp only
+  split <;> inv1_close
+
+theorem inv1_srcRun_recharge (c : Cfg) (s : State) (k b : Nat) (h : Inv1 c s) (hk : k < c.n)
+    (hb : s.ag = Ag.recharge k b) : Inv1 c { srcRun c s k with ag := Ag.loop } := by
+  obtain ⟨h1,h2,h3,h4,h5,h6,h7,h8,h9,h10,h11,h12,h13,h14,h15,h16,h17,h18,h19,h20,h21,h22⟩ := h
+  have hq := nWith_upd active s.st k SSt.queued c.n
+  have hi := nWith_upd active s.st k SSt.inflight c.n
+  have := h10 k b hb
+  unfold srcRun push
+  dsimp only
+  split <;> inv1_close
+
+theorem inv1_srcRun_charged (c : Cfg) (s : State) (k : Nat) (ag' : Ag) (h : Inv1 c s) (hk : k < c.n)
+    (hst : (∃ b, s.ag = Ag.charging k b ∧ ag' = Ag.charging (k + 1) b) ∨ (∃ b, s.ag = Ag.recharge k b ∧ ag' = Ag.loop)) :
+    Inv1 c { srcRun c s k with ag := ag' } := by
   rcases hst with ⟨b, hb, rfl⟩ | ⟨b, hb, rfl⟩
-  · have := h12 k b hb k (Nat.le_refl k)
-    dsimp only
-    split <;> inv1_close
-  · have := h10 k b hb
-    dsimp only
-    split <;> inv1_close
+  · exact inv1_srcRun_charging c s k b h hk hb
+  · exact inv1_srcRun_recharge c s k b h hk hb
+
+theorem inv1_charge (c : Cfg) (s : State) (k a : Nat) (ag' : Ag) (h : Inv1 c s) (hk : k < c.n)
+    (hst : (∃ b, s.ag = Ag.charging k b ∧ ag' = Ag.charging (k + 1) b) ∨ (∃ b, s.ag = Ag.recharge k b ∧ ag' = Ag.loop)) :
+    Inv1 c { charge c s k a with ag := ag' } :=
+  inv1_srcRun_charged c { s with got := upd s.got k (s.got k ++ [a]), cell := upd s.cell k (some a) } k ag'
+    (inv1_args c s _ _ s.aggArg h) hk hst
 
 theorem inv1_agg (c : Cfg) (s : State) (h : Inv1 c s) : Inv1 c (aggStep c s) := by
   unfold aggStep
@@ -216,21 +259,21 @@ theorem inv1_agg (c : Cfg) (s : State) (h : Inv1 c s) : Inv1 c (aggStep c s) := 
   · rename_i i a hag
     split
     · exact inv1_charge c s i a _ h ‹_› (Or.inl ⟨a, hag, rfl⟩)
-    · obtain ⟨h1,h2,h3,h4,h5,h6,h7,h8,h9,h10,h11,h12,h13,h14,h15,h16,h17,h18,h19,h20,h21⟩ := h
+    · obtain ⟨h1,h2,h3,h4,h5,h6,h7,h8,h9,h10,h11,h12,h13,h14,h15,h16,h17,h18,h19,h20,h21,h22⟩ := h
       inv1_close
   · rename_i k a hag
     have hk : k < c.n := by
       have := h.recharge_cur k a hag
       have := h.oob k
       grind
-    exact inv1_charge c s k a _ h hk (Or.inr ⟨a, hag, rfl⟩)
+    exact inv1_args c _ _ _ none (inv1_charge c s k a _ h hk (Or.inr ⟨a, hag, rfl⟩))
   · rename_i hag
     split
-    · obtain ⟨h1,h2,h3,h4,h5,h6,h7,h8,h9,h10,h11,h12,h13,h14,h15,h16,h17,h18,h19,h20,h21⟩ := h
+    · obtain ⟨h1,h2,h3,h4,h5,h6,h7,h8,h9,h10,h11,h12,h13,h14,h15,h16,h17,h18,h19,h20,h21,h22⟩ := h
       unfold finish
       split <;> inv1_close
     · split
-      · obtain ⟨h1,h2,h3,h4,h5,h6,h7,h8,h9,h10,h11,h12,h13,h14,h15,h16,h17,h18,h19,h20,h21⟩ := h
+      · obtain ⟨h1,h2,h3,h4,h5,h6,h7,h8,h9,h10,h11,h12,h13,h14,h15,h16,h17,h18,h19,h20,h21,h22⟩ := h
         inv1_close
       · exact inv1_popHandle c s h (Or.inl hag)
   · rename_i hag
@@ -238,10 +281,10 @@ theorem inv1_agg (c : Cfg) (s : State) (h : Inv1 c s) : Inv1 c (aggStep c s) := 
   · rename_i hag
     split
     · split
-      · obtain ⟨h1,h2,h3,h4,h5,h6,h7,h8,h9,h10,h11,h12,h13,h14,h15,h16,h17,h18,h19,h20,h21⟩ := h
+      · obtain ⟨h1,h2,h3,h4,h5,h6,h7,h8,h9,h10,h11,h12,h13,h14,h15,h16,h17,h18,h19,h20,h21,h22⟩ := h
         inv1_close
       · rename_i k r hq
-        obtain ⟨h1,h2,h3,h4,h5,h6,h7,h8,h9,h10,h11,h12,h13,h14,h15,h16,h17,h18,h19,h20,h21⟩ := h
+        obtain ⟨h1,h2,h3,h4,h5,h6,h7,h8,h9,h10,h11,h12,h13,h14,h15,h16,h17,h18,h19,h20,h21,h22⟩ := h
         have hf := nWith_upd active s.st k SSt.dropped c.n
         have hk := h2 k
         rw [hq] at h2 hk
@@ -250,7 +293,7 @@ theorem inv1_agg (c : Cfg) (s : State) (h : Inv1 c s) : Inv1 c (aggStep c s) := 
     · have hb : inflightList s c.n = [] := by
         apply inflightList_nil
         intro j hj hst
-        obtain ⟨h1,h2,h3,h4,h5,h6,h7,h8,h9,h10,h11,h12,h13,h14,h15,h16,h17,h18,h19,h20,h21⟩ := h
+        obtain ⟨h1,h2,h3,h4,h5,h6,h7,h8,h9,h10,h11,h12,h13,h14,h15,h16,h17,h18,h19,h20,h21,h22⟩ := h
         cases hs : s.started with
         | false => have := (h4 hs).1 j; grind
         | true =>
@@ -265,7 +308,7 @@ theorem inv1_agg (c : Cfg) (s : State) (h : Inv1 c s) : Inv1 c (aggStep c s) := 
             have hkn : k < c.n := by have := h1 k; grind
             have := nWith_two active s.st j k c.n hj hkn (by grind) (by grind [active]) (by grind [active])
             omega
-      obtain ⟨h1,h2,h3,h4,h5,h6,h7,h8,h9,h10,h11,h12,h13,h14,h15,h16,h17,h18,h19,h20,h21⟩ := h
+      obtain ⟨h1,h2,h3,h4,h5,h6,h7,h8,h9,h10,h11,h12,h13,h14,h15,h16,h17,h18,h19,h20,h21,h22⟩ := h
       inv1_close
   · exact h
 
@@ -275,7 +318,7 @@ theorem inv1_step (c : Cfg) (s : State) (op : Op) (h : Inv1 c s) : Inv1 c (step 
   | next a => exact inv1_next c s a h
   | agg => exact inv1_agg c s h
   | resolve k => exact inv1_resolve c s k h
-  | destroy => exact inv1_destroy c s h
+  | destroy b => exact inv1_destroy c s b h
 
 theorem inv1_init (c : Cfg) : Inv1 c init := by
   constructor <;> simp [init, destructing]
@@ -379,13 +422,15 @@ theorem inv2_step (c : Cfg) (s : State) (op : Op) (h : Inv2 c s) (h1 : Inv1 c s)
   | next a =>
     simp only [step, stepNext]
     split <;> first | exact h | exact inv2_congr c s _ h rfl rfl rfl rfl
-  | destroy =>
+  | destroy b =>
     simp only [step, stepDestroy]
     split <;> first | exact h | exact inv2_congr c s _ h rfl rfl rfl rfl
   | resolve k =>
     simp only [step, stepResolve]
     split
-    · exact inv2_srcRun c s k h (Or.inl ‹_›)
+    · obtain ⟨l, hl⟩ := lateRead_eq c s k
+      rw [hl]
+      exact inv2_srcRun c _ k (inv2_congr c s _ h rfl rfl rfl rfl) (Or.inl ‹_›)
     · exact h
   | agg =>
     simp only [step, aggStep]
@@ -457,6 +502,12 @@ theorem inv3_srcRun (c : Cfg) (s : State) (k : Nat) (h : Inv3 s)
   unfold srcRun push
   split <;> (refine ⟨?_, ?_, ?_, ?_, ?_⟩ <;> grind [upd_apply])
 
+theorem inv3_srcRun_inflight (c : Cfg) (s : State) (k : Nat) (h : Inv3 s) (hk : s.st k = SSt.inflight) :
+    Inv3 (srcRun c s k) := by
+  obtain ⟨e1, e2, e3, e4, e5⟩ := h
+  unfold srcRun push
+  split <;> (refine ⟨?_, ?_, ?_, ?_, ?_⟩ <;> grind [upd_apply])
+
 theorem inv3_popHandle (c : Cfg) (s : State) (h : Inv3 s) (h1 : Inv1 c s) (hag : s.ag = Ag.loop ∨ s.ag = Ag.woken) :
     Inv3 (popHandle s) := by
   obtain ⟨e1, e2, e3, e4, e5⟩ := h
@@ -482,7 +533,7 @@ theorem inv3_step (c : Cfg) (s : State) (op : Op) (h : Inv3 s) (h1 : Inv1 c s) :
     obtain ⟨e1, e2, e3, e4, e5⟩ := h
     simp only [step, stepNext]
     split <;> (refine ⟨?_, ?_, ?_, ?_, ?_⟩ <;> grind)
-  | destroy =>
+  | destroy b =>
     obtain ⟨e1, e2, e3, e4, e5⟩ := h
     simp only [step, stepDestroy]
     split <;> (refine ⟨?_, ?_, ?_, ?_, ?_⟩ <;> grind)
@@ -490,26 +541,26 @@ theorem inv3_step (c : Cfg) (s : State) (op : Op) (h : Inv3 s) (h1 : Inv1 c s) :
     simp only [step, stepResolve]
     split
     · rename_i hk
-      have h18 := h1.ended_cnt
-      obtain ⟨e1, e2, e3, e4, e5⟩ := h
-      unfold srcRun push
-      split <;> (refine ⟨?_, ?_, ?_, ?_, ?_⟩ <;> grind [upd_apply])
+      obtain ⟨l, hl⟩ := lateRead_eq c s k
+      rw [hl]
+      exact inv3_srcRun_inflight c _ k (inv3_congr s _ h rfl rfl rfl rfl rfl) hk
     · exact h
   | agg =>
     simp only [step, aggStep]
     split
     · rename_i i a hag
       split
-      · have := inv3_srcRun c { s with got := upd s.got i (s.got i ++ [a]) } i
+      · have := inv3_srcRun c { s with got := upd s.got i (s.got i ++ [a]), cell := upd s.cell i (some a) } i
           (inv3_congr s _ h rfl rfl rfl rfl rfl)
           (Or.inr (Or.inl (h1.charging_fresh i a hag i (Nat.le_refl i)))) (Ag.charging (i + 1) a) (by simp)
         exact this
       · obtain ⟨e1, e2, e3, e4, e5⟩ := h
         refine ⟨?_, ?_, ?_, ?_, ?_⟩ <;> grind
     · rename_i k a hag
-      exact inv3_srcRun c { s with got := upd s.got k (s.got k ++ [a]) } k
+      have := inv3_srcRun c { s with got := upd s.got k (s.got k ++ [a]), cell := upd s.cell k (some a) } k
           (inv3_congr s _ h rfl rfl rfl rfl rfl)
           (Or.inr (Or.inr (h1.recharge_cur k a hag))) Ag.loop (by simp)
+      exact inv3_congr _ _ this rfl rfl rfl rfl rfl
     · rename_i hag
       split
       · obtain ⟨e1, e2, e3, e4, e5⟩ := h
@@ -673,7 +724,7 @@ theorem inv4_step (c : Cfg) (s : State) (op : Op) (h : Inv4 c s) (h1 : Inv1 c s)
       refine ⟨o, ⟨v, ho⟩, ?_, hs⟩
       rw [hl, ho]; simp
     · exact h
-  | destroy =>
+  | destroy b =>
     simp only [step, stepDestroy]
     split
     all_goals first
@@ -686,7 +737,9 @@ theorem inv4_step (c : Cfg) (s : State) (op : Op) (h : Inv4 c s) (h1 : Inv1 c s)
   | resolve k =>
     simp only [step, stepResolve]
     split
-    · exact inv4_resolve c s k h
+    · obtain ⟨l, hl⟩ := lateRead_eq c s k
+      rw [hl]
+      exact inv4_resolve c _ k (inv4_congr c s _ h rfl rfl rfl rfl)
     · exact h
   | agg =>
     simp only [step, aggStep]
@@ -696,7 +749,7 @@ theorem inv4_step (c : Cfg) (s : State) (op : Op) (h : Inv4 c s) (h1 : Inv1 c s)
       obtain ⟨hc, ho, hg⟩ := e2 i a hag
       split
       · rename_i hi
-        obtain ⟨g1, g2, g3, _⟩ := srcRun_ghost c { s with got := upd s.got i (s.got i ++ [a]) } i
+        obtain ⟨g1, g2, g3, _⟩ := srcRun_ghost c { s with got := upd s.got i (s.got i ++ [a]), cell := upd s.cell i (some a) } i
         refine ⟨?_, ?_, ?_, ?_, ?_, ?_⟩ <;> simp [charge, g1, g2, g3]
         refine ⟨hc, ho, ?_⟩
         intro k hk
@@ -715,7 +768,7 @@ theorem inv4_step (c : Cfg) (s : State) (op : Op) (h : Inv4 c s) (h1 : Inv1 c s)
     · rename_i j a hag
       obtain ⟨e1, e2, e3, e4, e5, e6⟩ := h
       obtain ⟨cs, o, v, hc, ho, hl, hg⟩ := e3 j a hag
-      obtain ⟨g1, g2, g3, _⟩ := srcRun_ghost c { s with got := upd s.got j (s.got j ++ [a]) } j
+      obtain ⟨g1, g2, g3, _⟩ := srcRun_ghost c { s with got := upd s.got j (s.got j ++ [a]), cell := upd s.cell j (some a) } j
       refine ⟨?_, ?_, ?_, ?_, ?_, ?_⟩ <;> simp [charge, g1, g2, g3]
       · intro k hk
         rw [hc, ho, routed_calls_snoc cs o j v a k hl]
@@ -817,13 +870,15 @@ theorem inv5_step (c : Cfg) (s : State) (op : Op) (h : Inv5 c s) (h1 : Inv1 c s)
   | next a =>
     simp only [step, stepNext]
     split <;> first | exact h | exact inv5_congr c s _ h rfl rfl rfl
-  | destroy =>
+  | destroy b =>
     simp only [step, stepDestroy]
     split <;> first | exact h | exact inv5_congr c s _ h rfl rfl rfl
   | resolve k =>
     simp only [step, stepResolve]
     split
-    · exact inv5_srcRun c s k h (Or.inl ‹_›)
+    · obtain ⟨l, hl⟩ := lateRead_eq c s k
+      rw [hl]
+      exact inv5_srcRun c _ k (inv5_congr c s _ h rfl rfl rfl) (Or.inl ‹_›)
     · exact h
   | agg =>
     simp only [step, aggStep]
